@@ -1224,7 +1224,8 @@ var JobNames = []string{
 
 func (m *Model) applyJob(c Call, o Obs) []Hit {
 	if o.Err != "" {
-		return []Hit{hit("job-failed", []string{"C15"}, "maintenance job %s failed: %s", c.Op.Job, o.Err)}
+		// a job that fails once is not yet "stuck"; the convergence run decides
+		return []Hit{hit("job-failed", nil, "maintenance job %s failed: %s", c.Op.Job, o.Err)}
 	}
 	call := o.Call()
 	switch c.Op.Job {
